@@ -2,7 +2,9 @@ package generator
 
 import (
 	"fmt"
+	"go/types"
 	"sort"
+	"strings"
 
 	"github.com/jmattheis/goverter/method"
 )
@@ -17,6 +19,10 @@ func validateMethods(lookup *method.Index[generatedMethod]) error {
 			if !genMethod.Target.Struct && !isTargetStructPointer {
 				return fmt.Errorf("Invalid struct field mapping on method:\n    %s\n    %s\n\nField mappings like goverter:map or goverter:ignore may only be set on struct or struct pointers.\nSee https://goverter.jmattheis.de/guide/configure-nested", genMethod.Location, genMethod.ID)
 			}
+		}
+		if genMethod.Explicit && len(genMethod.RawFieldSettings) > 0 && genMethod.SkipCopySameType &&
+			genMethod.Source != nil && types.Identical(genMethod.Source.T, genMethod.Target.T) {
+			return fmt.Errorf("Invalid struct field mapping on method:\n    %s\n    %s\n\nThe source and target type are identical and skipCopySameType is enabled: the value is passed through\nand these field related settings would be ignored:\n    goverter:%s", genMethod.Location, genMethod.ID, strings.Join(genMethod.RawFieldSettings, "\n    goverter:"))
 		}
 		if genMethod.Explicit && genMethod.EnumMapping != nil && (len(genMethod.EnumMapping.Map) > 0 || len(genMethod.EnumMapping.Transformers) > 0) {
 			source, target := genMethod.Source, genMethod.Target
